@@ -1,4 +1,4 @@
-"""C20 manifold machine: an orbit and its invariant manifold; the orbit changes underneath the manifold."""
+"""C20 torus machine: an orbit and the invariant tori built on it; the orbit changes underneath the torus object."""
 from __future__ import annotations
 
 import numpy as np
@@ -8,13 +8,14 @@ from checks.c20 import attempt, brief, digest, eq, known_active, twin_memo
 from simkit.run import RunCtx, Violation
 
 M: dict = {}
-VARIANTS = [{"step": 0.5, "integration_fraction": 0.2, "displacement": 1e-6, "method": "fixed", "order": 4, "dt": 1e-2},
-            {"step": 0.34, "integration_fraction": 0.2, "displacement": 1e-6, "method": "fixed", "order": 4, "dt": 1e-2}]
-KINDS = [(True, "positive"), (False, "positive"), (True, "negative")]
+VARIANTS = [{"epsilon": 1e-3, "n_theta1": 32, "n_theta2": 8, "method": "fixed", "order": 4},
+            {"epsilon": 2e-3, "n_theta1": 32, "n_theta2": 8, "method": "fixed", "order": 4},
+            {"epsilon": 1e-3, "n_theta1": 24, "n_theta2": 6, "method": "fixed", "order": 4}]
+KINDS = [None]
 
 ALPHABET = [("o_set_period", "x0.9"), ("o_set_period", "x1.1"), ("o_set_period", "orig"), ("o_correct",),
-            ("m_compute", 0), ("m_compute", 1), ("m_trajectories",), ("m_refetch",), ("o_read", "monodromy"), ("m_save_load",)]
-WEIGHTS = [1.0, 0.6, 0.8, 0.8, 2.0, 1.5, 1.5, 0.5, 0.4, 0.5]
+            ("m_compute", 0), ("m_compute", 1), ("m_compute", 2), ("m_trajectories",), ("m_refetch",), ("o_read", "monodromy"), ("m_save_load",)]
+WEIGHTS = [1.0, 0.6, 0.8, 0.8, 2.0, 1.5, 1.0, 1.5, 0.5, 0.4, 0.5]
 REDUCED = [("o_set_period", "x0.9"), ("o_correct",), ("m_compute", 0), ("m_compute", 1), ("m_trajectories",), ("m_refetch",)]
 
 
@@ -29,8 +30,8 @@ def warmup(U, tier):
     for uni in ("sys_real", "sys_twin"):
         o = HaloOrbit(L1Point(U[uni]["em"]), initial_state=M["x"].copy())
         o.period = M["T"]
-        m = o.manifold(stable=True, direction="positive")
-        m.compute(show_progress=False, **VARIANTS[0])
+        from hiten.system.torus import InvariantTori
+        InvariantTori(o).compute(**VARIANTS[0])
         o.correct()
 
 
@@ -42,12 +43,17 @@ def _orbit(U, uni, x, T):
     return o
 
 
+def _mk(orbit):
+    from hiten.system.torus import InvariantTori
+    return InvariantTori(orbit)
+
+
 def _result(m):
-    tr = m.trajectories
-    if tr is None:
+    try:
+        g = m.grid
+    except ValueError:
         return None
-    return {"n": len(tr), "first": [np.array(t.states[0]) for t in tr], "last": [np.array(t.states[-1]) for t in tr],
-            "tend": [float(t.times[-1]) for t in tr]}
+    return {"n": int(np.asarray(g).shape[0]), "grid": np.array(g)}
 
 
 def teq(a, b):
@@ -56,10 +62,10 @@ def teq(a, b):
 
 def run_history(ctx: RunCtx, U) -> None:
     ds, log = ctx.ds, ctx.log
-    stable, direction = KINDS[ds.choose(len(KINDS), "manifold.kind")]
+    stable, direction = None, None
     x, T = M["x"].copy(), M["T"]
     orbit = _orbit(U, "sys_real", x, T)
-    man = orbit.manifold(stable=stable, direction=direction)
+    man = _mk(orbit)
     last = None                 # (variant, x digest, T) of the last compute on `man`
     hist: list = []
     mutated = False
@@ -69,9 +75,9 @@ def run_history(ctx: RunCtx, U) -> None:
     def fresh_result(vi, x, T):
         def f():
             tw = _orbit(U, "sys_twin", x, T)
-            tm = tw.manifold(stable=stable, direction=direction)
-            return attempt(lambda: (tm.compute(show_progress=False, **VARIANTS[vi]), _result(tm))[1])
-        return twin_memo(("manifold", stable, direction, vi, x, T), f)
+            tm = _mk(tw)
+            return attempt(lambda: (tm.compute(**VARIANTS[vi]), _result(tm))[1])
+        return twin_memo(("torus", vi, x, T), f)
 
     while len(hist) < max_len:
         w = [0.08 if hist else 0.0] + WEIGHTS
@@ -94,10 +100,10 @@ def run_history(ctx: RunCtx, U) -> None:
             t_out = twin_memo(("manifold-correct", x, T), lambda: _twin_correct(U, x, T))
             r_out = attempt(lambda: orbit.correct())
             if r_out.failed != t_out[0].failed:
-                raise Violation("C20/manifold/outcome-correct", f"orbit.correct(): {r_out.kind()} on the long-lived orbit, {t_out[0].kind()} on a fresh twin | history: {hist}")
+                raise Violation("C20/torus/outcome-correct", f"orbit.correct(): {r_out.kind()} on the long-lived orbit, {t_out[0].kind()} on a fresh twin | history: {hist}")
             x, T = t_out[1], t_out[2]
             if not eq(np.array(orbit.initial_state), x) or not eq(orbit.period, T):
-                raise Violation("C20/manifold/orbit-state-after-correct", f"after correct(): state {brief(np.array(orbit.initial_state))}, period {orbit.period}; fresh twin "
+                raise Violation("C20/torus/orbit-state-after-correct", f"after correct(): state {brief(np.array(orbit.initial_state))}, period {orbit.period}; fresh twin "
                                                                          f"{brief(x)}, {T} | history: {hist}")
             mutated = True
             log.add("op", op, r_out.kind())
@@ -105,7 +111,7 @@ def run_history(ctx: RunCtx, U) -> None:
             r_out = attempt(lambda: np.array(orbit.monodromy))
             t_out = twin_memo(("manifold-mono", x, T), lambda: attempt(lambda: np.array(_orbit(U, "sys_twin", x, T).monodromy)))
             if r_out.failed != t_out.failed or (not r_out.failed and not eq(r_out.value, t_out.value)):
-                raise Violation("C20/manifold/orbit-monodromy", f"orbit.monodromy differs from a fresh twin at x={brief(x)}, T={T} | history: {hist}")
+                raise Violation("C20/torus/orbit-monodromy", f"orbit.monodromy differs from a fresh twin at x={brief(x)}, T={T} | history: {hist}")
             log.add("op", op, r_out.kind())
         elif k == "m_save_load":
             import os
@@ -113,67 +119,66 @@ def run_history(ctx: RunCtx, U) -> None:
             path = base.tmp_path(f"dep_{len(hist)}.pkl")
             out = attempt(lambda: man.save(path))
             if out.failed:
-                raise Violation("C20/manifold/save-raised", f"save raised {out.kind()}: {out.exc} | history: {hist}")
+                raise Violation("C20/torus/save-raised", f"save raised {out.kind()}: {out.exc} | history: {hist}")
             out = attempt(lambda: type(man).load(path))
             try:
                 os.remove(path)
             except OSError:
                 pass
             if out.failed:
-                raise Violation("C20/manifold/load-raised", f"load raised {out.kind()}: {out.exc} | history: {hist}")
+                raise Violation("C20/torus/load-raised", f"load raised {out.kind()}: {out.exc} | history: {hist}")
             after = attempt(lambda: _result(out.value))
             log.add("op", op, "ok")
             ctx.probe("reload_then_continue")
-            ob = attempt(lambda: (np.array(out.value.generating_orbit.initial_state, float), out.value.generating_orbit.period))
+            ob = attempt(lambda: (np.array(out.value.orbit.initial_state, float), out.value.orbit.period))
             if ob.failed or not eq(ob.value[0], x) or not eq(ob.value[1], T):
-                raise Violation("C20/manifold/roundtrip-orbit", f"after save/load the object's orbit has state/period {ob.value if not ob.failed else ob.kind()}, before the round trip "
+                raise Violation("C20/torus/roundtrip-orbit", f"after save/load the object's orbit has state/period {ob.value if not ob.failed else ob.kind()}, before the round trip "
                                                               f"{brief(x)}, {T} | history: {hist}")
             if not before.failed and before.value is not None and last is not None and eq(last[1], x) and eq(last[2], T):
                 if after.failed or after.value is None or not teq(after.value, before.value):
-                    raise Violation("C20/manifold/roundtrip-result", f"the stored result of the last compute is lost or changed by save/load "
+                    raise Violation("C20/torus/roundtrip-result", f"the stored result of the last compute is lost or changed by save/load "
                                                                    f"({'unset' if (after.failed or after.value is None) else 'different'} after the round trip) | history: {hist}")
             break  # the reloaded object carries its own unpickled orbit and System: continuing would recompile every integrator
         elif k == "m_refetch":
-            man = orbit.manifold(stable=stable, direction=direction)
+            man = _mk(orbit)
             last = None
             log.add("op", op, "ok")
         elif k == "m_compute":
             vi = op[1]
-            r_out = attempt(lambda: (man.compute(show_progress=False, **VARIANTS[vi]), _result(man))[1])
+            r_out = attempt(lambda: (man.compute(**VARIANTS[vi]), _result(man))[1])
             t_out = fresh_result(vi, x, T)
             log.add("op", op, r_out.kind(), digest(r_out.value) if not r_out.failed else None)
             if r_out.failed != t_out.failed:
-                raise Violation("C20/manifold/outcome-compute", f"manifold.compute(variant {vi}): {r_out.kind()} ({r_out.exc}) on the long-lived manifold, {t_out.kind()} "
+                raise Violation("C20/torus/outcome-compute", f"manifold.compute(variant {vi}): {r_out.kind()} ({r_out.exc}) on the long-lived manifold, {t_out.kind()} "
                                                                 f"on a fresh manifold of a fresh orbit in the same state | history: {hist}")
             if not r_out.failed and not teq(r_out.value, t_out.value):
-                raise Violation("C20/manifold/value-compute", f"manifold.compute(step={VARIANTS[vi]['step']}) on the long-lived manifold (orbit period {T}) gave "
-                                                              f"{r_out.value['n']} trajectories, first seed {brief(r_out.value['first'][0]) if r_out.value['n'] else None}; "
-                                                              f"a fresh manifold of a fresh orbit in the same state gives {t_out.value['n']}, first seed "
-                                                              f"{brief(t_out.value['first'][0]) if t_out.value['n'] else None} | history: {hist}")
+                raise Violation("C20/torus/value-compute", f"torus.compute({VARIANTS[vi]}) on the long-lived torus object (orbit period {T}) gave grid "
+                                                              f"{brief(r_out.value['grid'])}; a fresh InvariantTori of a fresh orbit in the same state gives "
+                                                              f"{brief(t_out.value['grid'])} | history: {hist}")
             last = (vi, x.copy(), T)
-            ctx.probe("manifold_compared")
+            ctx.probe("torus_compared")
         elif k == "m_trajectories":
             r_out = attempt(lambda: _result(man))
             if r_out.failed or r_out.value is None:
-                ctx.probe("manifold_result_unset")
+                ctx.probe("torus_grid_unset")
                 log.add("op", op, "unset")
                 continue
             if last is None:
-                raise Violation("C20/manifold/stored-result", f"manifold.trajectories holds {r_out.value['n']} trajectories although this manifold object has not computed anything | history: {hist}")
+                raise Violation("C20/torus/stored-result", f"torus.grid holds {r_out.value['n']} trajectories although this manifold object has not computed anything | history: {hist}")
             vi, xl, Tl = last
             # two-sided: the stored result must be the last compute's result at the orbit's CURRENT state
             t_out = fresh_result(vi, x, T)
             if t_out.failed or not teq(r_out.value, t_out.value):
                 same_as_then = (not eq(xl, x) or not eq(Tl, T)) and teq(r_out.value, fresh_result(vi, xl, Tl).value)
-                if same_as_then and known_active("C20-K3-manifold-stored-result-survives-orbit-change"):
-                    ctx.note_known("C20-K3-manifold-stored-result-survives-orbit-change")
+                if same_as_then and known_active("C20-K4-torus-stored-grid-survives-orbit-change"):
+                    ctx.note_known("C20-K4-torus-stored-grid-survives-orbit-change")
                     continue
-                raise Violation("C20/manifold/stored-result", f"manifold.trajectories is not the result of the last compute (variant {vi}) for the orbit's current state "
+                raise Violation("C20/torus/stored-result", f"torus.grid is not the result of the last compute (variant {vi}) for the orbit's current state "
                                                               f"(period {T}; computed when the period was {Tl}) | history: {hist}")
             log.add("op", op, "stored", digest(r_out.value))
             ctx.probe("stored_result_compared")
     ctx.sig_parts = [stable, direction, hist]
-    ctx.sample = {"machine": "manifold", "objects": [f"halo orbit + {'stable' if stable else 'unstable'}/{direction} manifold"], "history": [list(h) for h in hist]}
+    ctx.sample = {"machine": "torus", "objects": ["halo orbit + InvariantTori"], "history": [list(h) for h in hist]}
     ctx.steps += len(hist)
 
 
@@ -188,4 +193,4 @@ def enumeration(max_len: int):
     idx = [ALPHABET.index(op) + 1 for op in REDUCED]
     for L in range(1, max_len + 1):
         for seq in itertools.product(idx, repeat=L):
-            yield [2, 0] + list(seq) + [0]   # machine=manifold (2), kind 0
+            yield [3] + list(seq) + [0]   # machine=torus (3)
